@@ -21,8 +21,8 @@ TOLERANCES = {"coord_rel_to_pitch": 1e-9}
 EXHAUSTIVE = {"quick": True, "thorough": True}
 EXHAUSTIVE_PART = "all cells within N rings (quick 14, thorough 50) x both orientations x all k in [-13,13]; 4 cartesian quarter variants"
 FLOORS = {
-    "quick": {"hex.sym": 1000, "hex.rot": 10000, "cart.sym": 1000, "block.rotate": 150, "assem.rotate": 60},
-    "thorough": {"hex.sym": 10000, "hex.rot": 100000, "cart.sym": 10000, "block.rotate": 3000, "assem.rotate": 1000},
+    "quick": {"hex.sym": 1000, "hex.rot": 10000, "cart.sym": 1000, "block.rotate": 150, "assem.rotate": 60, "hex.rot.cellnumber": 3000},
+    "thorough": {"hex.sym": 10000, "hex.rot": 100000, "cart.sym": 10000, "block.rotate": 3000, "assem.rotate": 1000, "hex.rot.cellnumber": 30000},
 }
 
 
@@ -178,9 +178,26 @@ def do_hexrot(spec, rec, rng):
         except Exception as e:
             rec.crash("hexrot", e, w)
 
+    from armi.utils import hexagon
+
+    def number(ring, pos):
+        return 1 if ring == 1 else 1 + 3 * (ring - 1) * (ring - 2) + pos  # cells counted ring by ring, closed form
+
     for i, j in cells(N):
         for k in ks:
-            one(i, j, k, 0)
+            r_ = one(i, j, k, 0)
+            if 0 <= k <= 5 and r_ is not None:
+                # the cell *number* form of the same rotation (pins of a rotated block are renumbered with it)
+                rec.hit("hex.rot.cellnumber")
+                try:
+                    n0 = number(*H.indicesToRingPos(i, j))
+                    want = number(*H.indicesToRingPos(r_.i, r_.j))
+                    got = hexagon.getIndexOfRotatedCell(n0, k)
+                    if got != want:
+                        rec.violation("hexrot/cell-number", "getIndexOfRotatedCell(%d, %d) = %s; cell %d is at %s, R(60k) puts it at %s = cell %d" % (n0, k, got, n0, (i, j), (r_.i, r_.j), want),
+                                      {"i": i, "j": j, "k": k, "cornersUp": cu})
+                except Exception as e:
+                    rec.crash("getIndexOfRotatedCell", e, {"i": i, "j": j, "k": k})
             rec.case(["hexrot", cu, i, j, k], nontrivial=(i, j) != (0, 0) and k % 6 != 0,
                      sample={"ij": [i, j], "k": k, "cornersUp": cu} if (i, j, k) == (2, 1, -5) else None)
     for n in range(spec["nrand"]):
@@ -330,13 +347,16 @@ def make_block(rng):
     names = b.p.paramDefs.atLocation(ParamLocation.CORNERS).names + b.p.paramDefs.atLocation(ParamLocation.EDGES).names
     vecs = {}
     for nme in names:
-        t = rng.choice(["list", "array", "unset", "list"])
+        t = rng.choice(["list", "array", "unset", "list", "scalar", "table"])
         if t == "list":
             v = [rng.uniform(0, 1000) for _ in range(6)]
         elif t == "array":
             v = np.array([rng.uniform(0, 1000) for _ in range(6)])
         elif t == "scalar":
-            v = rng.uniform(0, 10)
+            v = rng.uniform(0, 10)  # documented: a scalar on a corner/edge parameter is not per-corner data and is left alone
+        elif t == "table":
+            ng_ = rng.choice([2, 3, 6])
+            v = np.array([[rng.uniform(0, 1000) for _ in range(ng_)] for _ in range(6)])  # one row per corner/edge (e.g. x group)
         else:
             continue
         b.p[nme] = v
@@ -366,7 +386,7 @@ def snapshot(b):
     vec = {}
     for n in names:
         v = b.p[n]
-        vec[n] = (type(v).__name__, None if v is None else (list(np.asarray(v, dtype=float).ravel()) if isinstance(v, (list, np.ndarray)) else v))
+        vec[n] = (type(v).__name__, None if v is None else (np.asarray(v, dtype=float).tolist() if isinstance(v, (list, np.ndarray)) else v))
     return {"locs": locs, "vec": vec, "disp": (b.p.displacementX, b.p.displacementY), "orient": list(b.p.orientation),
             "pins": [tuple(p) for p in b.getPinCoordinates()] if len(b.getPinLocations()) else []}
 
@@ -398,8 +418,8 @@ def judge_rotation(rec, before, after, k, w, pitch, where, slack=0.0):
     for n, (t0, v0) in before["vec"].items():
         t1, v1 = after["vec"][n]
         if isinstance(v0, list) and len(v0) == 6:
-            want = list(np.roll(np.array(v0), k % 6))
-            if not isinstance(v1, list) or len(v1) != 6 or any(a != b_ for a, b_ in zip(want, v1)):
+            want = np.roll(np.array(v0), k % 6, axis=0).tolist()  # row c (corner/edge c) moves to c+k; a row may be a value or a vector of values
+            if not isinstance(v1, list) or len(v1) != 6 or want != v1:
                 rec.violation(where + "/boundary-vector", "%s: %s rotated %d steps gave %s, expected %s" % (n, v0, k % 6, v1, want), w)
             if t0 != t1:
                 rec.violation(where + "/boundary-vector-type", "%s changed type %s -> %s" % (n, t0, t1), w)
